@@ -83,6 +83,8 @@ func (e *Env) ghostAssign(c *specCtx, target *SExpr, v Value) {
 		if k, ok := e.w.Cs.Ghosts[target.Name]; ok {
 			n := "ghost$" + target.Name
 			switch k {
+			case "u":
+				e.assign(n, SU, e.box(v))
 			case "bool":
 				e.assign(n, SBool, v.T)
 			case "seq":
